@@ -227,6 +227,14 @@ var classList = []string{
 	"ref_named_collection", "map_nested", "array_named_collection",
 	"union_scalars_shared", "union_scalars_shared_optional", "map_array_scalar", "map_array_struct", "array_map_struct",
 	"nullable_int_plain",
+	"default_int_wide", "default_list_int", "default_list_empty", "default_nullable", "default_union", "default_map",
+	"default_int_bounded", "default_float_bounded",
+}
+
+// focusOnly classes only appear when a check asks for them.
+var focusOnly = map[string]bool{
+	"default_int_wide": true, "default_list_int": true, "default_list_empty": true, "default_nullable": true,
+	"default_union": true, "default_map": true, "default_int_bounded": true, "default_float_bounded": true,
 }
 
 func (g *mgen) denseStruct() T {
@@ -238,6 +246,9 @@ func (g *mgen) denseStruct() T {
 	}
 	var chosen []string
 	for _, c := range classes {
+		if focusOnly[c] && !focus[c] {
+			continue
+		}
 		if focus[c] || rapid.IntRange(0, 3).Draw(g.t, "keep") != 0 {
 			chosen = append(chosen, c)
 		}
@@ -502,6 +513,61 @@ func (g *mgen) classType(c string, depth int) (T, bool) {
 	case "default_list":
 		e := T{Kind: KString}
 		t = T{Kind: KArray, Elem: &e, Default: Raw(rapid.SampledFrom([][]string{{"a", "b"}, {"x"}}).Draw(g.t, "dlist"))}
+	case "default_int_wide":
+		t = T{Kind: KInt, Default: Raw(rapid.SampledFrom([]int64{0, -1 << 40, 1 << 53, (1 << 53) + 1, 1<<62 + 3, 2147483648}).Draw(g.t, "dintwide"))}
+	case "default_list_int":
+		e := T{Kind: KInt}
+		t = T{Kind: KArray, Elem: &e, Default: Raw(rapid.SampledFrom([][]int{{1, 2}, {0}, {-7, 300, 5}}).Draw(g.t, "dlistint"))}
+	case "default_list_empty":
+		e := T{Kind: KString}
+		t = T{Kind: KArray, Elem: &e, Default: Raw([]string{})}
+	case "default_nullable":
+		if rapid.Bool().Draw(g.t, "dnullkind") {
+			t = T{Kind: KString, Nullable: true, Default: Raw(rapid.SampledFrom([]string{"n", ""}).Draw(g.t, "dnullstr"))}
+		} else {
+			t = T{Kind: KInt, Nullable: true, Default: Raw(rapid.IntRange(0, 9).Draw(g.t, "dnullint"))}
+		}
+	case "default_union":
+		pool := []T{{Kind: KString}, {Kind: KBool}, {Kind: KInt}}
+		n := rapid.IntRange(2, 3).Draw(g.t, "dunionn")
+		branches := rapid.Permutation(pool).Draw(g.t, "dunionbranches")[:n]
+		var dv any
+		switch rapid.SampledFrom(branches).Draw(g.t, "dunionbranch").Kind {
+		case KString:
+			dv = rapid.SampledFrom([]string{"u", ""}).Draw(g.t, "dunionstr")
+		case KBool:
+			dv = rapid.Bool().Draw(g.t, "dunionbool")
+		default:
+			dv = rapid.IntRange(0, 50).Draw(g.t, "dunionint")
+		}
+		t = T{Kind: KUScalars, Branches: branches, Default: Raw(dv)}
+	case "default_map":
+		e := T{Kind: rapid.SampledFrom([]string{KString, KInt}).Draw(g.t, "dmapkind")}
+		if e.Kind == KString {
+			t = T{Kind: KMap, Elem: &e, Default: Raw(map[string]string{"a": "x", "b": ""})}
+		} else {
+			t = T{Kind: KMap, Elem: &e, Default: Raw(map[string]int{"a": 1})}
+		}
+	case "default_int_bounded":
+		t = g.bounded(KInt)
+		t.ExclMin, t.ExclMax = false, false
+		v := 0.0
+		if t.Min != nil {
+			v = *t.Min + 1
+		} else {
+			v = *t.Max - 1
+		}
+		t.Default = Raw(int64(v))
+	case "default_float_bounded":
+		t = g.bounded(KFloat)
+		t.ExclMin, t.ExclMax = false, false
+		v := 0.0
+		if t.Min != nil {
+			v = *t.Min + 0.5
+		} else {
+			v = *t.Max - 0.5
+		}
+		t.Default = Raw(v)
 	default:
 		panic("smodel: unknown class " + c)
 	}
@@ -512,6 +578,68 @@ func (g *mgen) classType(c string, depth int) (T, bool) {
 		return T{}, false
 	}
 	return t, true
+}
+
+// AddStructDefaults gives some references to struct definitions a default
+// object (a by-construction valid instance of the referred struct: required
+// fields and a random subset of the optional ones, i.e. partial overrides).
+// Only CUE can express a default on a reference.
+func AddStructDefaults(t *rapid.T, m *Model) int {
+	added := 0
+	reaches := func(from, to string) bool {
+		seen := map[string]bool{}
+		var rec func(name string) bool
+		rec = func(name string) bool {
+			if name == to {
+				return true
+			}
+			if seen[name] {
+				return false
+			}
+			seen[name] = true
+			d := m.Def(name)
+			if d == nil {
+				return false
+			}
+			found := false
+			walkT(&d.Type, name, "", func(_ string, _ string, x *T) {
+				if x.Kind == KRef && rec(x.Ref) {
+					found = true
+				}
+				for _, r := range x.Refs {
+					if rec(r) {
+						found = true
+					}
+				}
+			})
+			return found
+		}
+		return rec(from)
+	}
+	for i := range m.Defs {
+		d := &m.Defs[i]
+		if d.Type.Kind != KStruct {
+			continue
+		}
+		for j := range d.Type.Fields {
+			f := &d.Type.Fields[j]
+			if f.Type.Kind != KRef || f.Type.Nullable || f.Type.Default != nil {
+				continue
+			}
+			target := m.Def(f.Type.Ref)
+			if target == nil || target.Type.Kind != KStruct || reaches(f.Type.Ref, d.Name) {
+				continue
+			}
+			if !rapid.Bool().Draw(t, "structdefault") {
+				continue
+			}
+			doc := DrawDoc(t, m, f.Type.Ref)
+			raw := json.RawMessage(doc.JSON)
+			f.Type.Default = &raw
+			added++
+		}
+	}
+	return added
 }
 
 func (g *mgen) supportsDeep(t T) bool {
